@@ -153,23 +153,25 @@ theorem fc_execBody (xs : List ExtBehaviour) (req : RequestOutcomeClass) :
   | exec fs => simp only [execBody, fc_executeFields]
   | _ => simp [execBody, faultClasses, isHookErr]
 
-theorem fc_executePlan (xs : List ExtBehaviour) (req : RequestOutcomeClass) :
-    faultClasses (executePlan xs req).1 = (executePlan xs req).2.errors.filter isHookErr := by
+theorem fc_executePlanB (xs : List ExtBehaviour) (body : Body)
+    (hbody : faultClasses body.1 = body.2.1.filter isHookErr) :
+    faultClasses (executePlanB xs body).1 = (executePlanB xs body).2.errors.filter isHookErr := by
   have Ses := fc_didStart .execStart (by simp) rfl 0 xs
   have Fee := fun o => fc_finish .execEnd (by simp) rfl 0 o (didStart .execStart 0 xs).fs
   have R := fc_results xs
   have fe := fun {l : List ErrClass} (h : ∀ c ∈ l, isHookErr c = true) => List.filter_eq_self.2 h
-  simp only [executePlan]
+  simp only [executePlanB]
   by_cases c : (didStart .execStart 0 xs).errs.isEmpty = true
   · have z := nil_of_isEmpty c
     simp only [c, Bool.not_true, Bool.false_eq_true, if_false]
-    simp only [fc_append, Ses.1, z, List.nil_append, fc_execBody,
+    simp only [fc_append, Ses.1, z, List.nil_append, hbody,
       (Fee _).1, R.1, List.filter_append, fe (Fee _).2, fe R.2]
   · simp only [c, Bool.not_false, if_true, fc_append, Ses.1, (Fee _).1, List.filter_append, fe Ses.2, fe (Fee _).2]
 
 /-- the hook errors of the result of a run are exactly the panicking hook calls of its log, in order -/
-theorem fc_run (xs : List ExtBehaviour) (req : RequestOutcomeClass) :
-    faultClasses (run xs req).1 = (run xs req).2.errors.filter isHookErr := by
+theorem fc_runB (xs : List ExtBehaviour) (req : RequestOutcomeClass) (body : Body)
+    (hbody : faultClasses body.1 = body.2.1.filter isHookErr) :
+    faultClasses (runB xs req body).1 = (runB xs req body).2.errors.filter isHookErr := by
   have I := fc_handleInits xs
   have Sps := fc_didStart .parseStart (by simp) rfl 0 xs
   have Svs := fc_didStart .valStart (by simp) rfl 0 xs
@@ -178,7 +180,7 @@ theorem fc_run (xs : List ExtBehaviour) (req : RequestOutcomeClass) :
   have fe := fun {l : List ErrClass} (h : ∀ c ∈ l, isHookErr c = true) => List.filter_eq_self.2 h
   have hq : [ErrClass.request].filter isHookErr = [] := rfl
   have fcnil : faultClasses [] = [] := rfl
-  simp only [run, pre, early, fc_append, I.1, Sps.1]
+  simp only [runB, pre, early, fc_append, I.1, Sps.1]
   by_cases c1n : (handleInits xs).2.isEmpty = false
   · simp [c1n, fe I.2, fcnil]
   have c1 : (handleInits xs).2.isEmpty = true := by simpa using c1n
@@ -209,10 +211,18 @@ theorem fc_run (xs : List ExtBehaviour) (req : RequestOutcomeClass) :
        · simp [c5n, fe (Fve _).2, fcnil]
        have c5 : (finish .valEnd 0 .ok (didStart .valStart 0 xs).fs).2.isEmpty = true := by simpa using c5n
        simp only [c5, Bool.not_true, Bool.false_eq_true, if_false]
-       simp only [nil_of_isEmpty c5, List.nil_append, execute]
+       simp only [nil_of_isEmpty c5, List.nil_append, executeB]
        first
        | (simp [fcnil, hq]; done)
-       | exact fc_executePlan xs _)
+       | exact fc_executePlanB xs _ hbody)
+
+theorem fc_executePlan (xs : List ExtBehaviour) (req : RequestOutcomeClass) :
+    faultClasses (executePlan xs req).1 = (executePlan xs req).2.errors.filter isHookErr :=
+  fc_executePlanB xs _ (fc_execBody xs req)
+
+theorem fc_run (xs : List ExtBehaviour) (req : RequestOutcomeClass) :
+    faultClasses (run xs req).1 = (run xs req).2.errors.filter isHookErr :=
+  fc_runB xs req _ (fc_execBody xs req)
 
 theorem reported_run (xs : List ExtBehaviour) (req : RequestOutcomeClass) :
     reported (run xs req).1 (run xs req).2 = true :=
